@@ -442,8 +442,12 @@ fn expand(
                 r.evolution_event
             }
             ActKind::Remove(who) => {
-                let pk = w.pks_by_name.get(who).map(|k| nostr::PublicKey::from_hex(k).unwrap()).ok_or(GenError(format!("unknown {who}")))?;
-                with_mdk!(c, m => m.remove_members(&gid, &[pk])).map_err(ge(&label))?.evolution_event
+                // "C+E" removes several users in one call, in the order written
+                let mut pks = Vec::new();
+                for one in who.split('+') {
+                    pks.push(w.pks_by_name.get(one).map(|k| nostr::PublicKey::from_hex(k).unwrap()).ok_or(GenError(format!("unknown {one}")))?);
+                }
+                with_mdk!(c, m => m.remove_members(&gid, &pks)).map_err(ge(&label))?.evolution_event
             }
             ActKind::Leave => with_mdk!(c, m => m.leave_group(&gid)).map_err(ge(&label))?.evolution_event,
             ActKind::CommitLeave(leave_label) => {
@@ -571,8 +575,10 @@ fn expand(
                 exp_child.insert(x.clone());
             }
             ActKind::Remove(x) => {
-                for n in same_user(x) {
-                    exp_child.remove(&n);
+                for one in x.split('+') {
+                    for n in same_user(one) {
+                        exp_child.remove(&n);
+                    }
                 }
             }
             ActKind::CommitLeave(label) => {
